@@ -1349,10 +1349,9 @@ namespace bloch::runtime {
             return;
 #ifdef BLOCH_VERIF
         if (verif::gc().timerOff) {
-            // "pressure" keeps everything but the timer: the collection at the end of the run
-            // (requested where the timer thread is joined) still takes place
-            if (!verif::gc().suppressRequests && !verif::gc().forceAll)
-                m_gcThreadStarted = true;
+            // Schedules without the timer keep the collection at the end of the run (requested
+            // where the timer thread is joined), as every run without hooks has it
+            m_gcThreadStarted = true;
             return;
         }
 #endif
